@@ -424,6 +424,9 @@ func (e *Engine) itoa(st *State, t *term.Term) Value {
 	}
 	w := int(t.Sort.W)
 	neg := term.BVCmp(term.OpSLt, t, term.BVC(w, 0))
+	if v, ok := st.truth(neg); ok {
+		neg = term.BoolC(v)
+	}
 	abs := term.Ite(neg, term.BVNeg(t), t)
 	digits := term.SFromInt(term.BV2Int(abs))
 	return term.Ite(neg, term.SConcat(term.StrC("-"), digits), digits)
@@ -447,6 +450,10 @@ func (e *Engine) atoi(st *State, th *Thread, s *term.Term) Value {
 			return Tuple{term.BVC(64, uint64(sign*n2.I)), Iface{}}
 		}
 		return Tuple{term.BVC(64, 0), e.opaqueError("strconv.Atoi: parsing " + s.S + ": invalid syntax")}
+	}
+	if n.Op == term.OpBV2Int && n.Args[0].Sort.W == 64 {
+		// the text is the decimal rendering of a non-negative int: parsing it gives that int back
+		return Tuple{n.Args[0], Iface{}}
 	}
 	// values that do not fit in int64 are outside the model (assumed away)
 	e.assumeIn(st, term.ICmp(term.OpILt, n, term.IntC(1<<62)))
